@@ -417,6 +417,19 @@ func (a *linAn) condFacts(cond ssa.Value, truth bool, out *linFacts) {
 		}
 	case *ssa.BinOp:
 		bt, ok := c.X.Type().Underlying().(*types.Basic)
+		if ok && bt.Info()&types.IsString != 0 && (c.Op == token.EQL || c.Op == token.NEQ) {
+			// s != "" : the string has at least one byte
+			sv, kv := c.X, c.Y
+			if _, isK := sv.(*ssa.Const); isK {
+				sv, kv = kv, sv
+			}
+			if k, isK := strConst(kv); isK && k == "" && (c.Op == token.NEQ) == truth {
+				if ln, ok := a.lenOf(sv); ok {
+					out.ge = append(out.ge, ln.add(linConst(1), -1))
+				}
+			}
+			return
+		}
 		if !ok || bt.Info()&types.IsInteger == 0 {
 			return
 		}
